@@ -92,6 +92,34 @@ impl Driver for D {
                     }
                     Err(e) => ctx.fail("C20", format!("own serialisation rejected: {}", e)),
                 }
+                // every order of the three fields must be accepted and give the same sketch
+                {
+                    let doc: serde_json::Value = serde_json::from_str(&json).unwrap();
+                    let obj = doc.as_object().unwrap();
+                    let parts: Vec<String> = ["registers", "b", "buildhasher"].iter().map(|k| format!("\"{}\":{}", k, obj[*k])).collect();
+                    for perm in [[0, 1, 2], [0, 2, 1], [1, 0, 2], [1, 2, 0], [2, 0, 1], [2, 1, 0]] {
+                        let txt = format!("{{{},{},{}}}", parts[perm[0]], parts[perm[1]], parts[perm[2]]);
+                        match serde_json::from_str::<Hll>(&txt) {
+                            Ok(g) => {
+                                if &g != f {
+                                    ctx.fail("C20", format!("field order {:?} deserialises to a different sketch", perm));
+                                }
+                            }
+                            Err(e) => ctx.fail("C20", format!("field order {:?} of the own serialisation rejected: {}", perm, e)),
+                        }
+                    }
+                    // a duplicated field must be rejected whatever its position
+                    for dup in 0..3 {
+                        for pos in 0..4 {
+                            let mut v: Vec<String> = parts.clone();
+                            v.insert(pos, parts[dup].clone());
+                            let txt = format!("{{{}}}", v.join(","));
+                            if serde_json::from_str::<Hll>(&txt).is_ok() {
+                                ctx.fail("C20", format!("document with field {} duplicated at position {} accepted", dup, pos));
+                            }
+                        }
+                    }
+                }
                 // report the document as parsed generically (field order, values)
                 let doc: serde_json::Value = serde_json::from_str(&json).unwrap();
                 let obj = doc.as_object().expect("object");
